@@ -32,13 +32,18 @@ func (t *JSONFormatter) SetSchema(schema physical.Schema) {
 }
 
 func (t *JSONFormatter) Write(values []octosql.Value) error {
-	obj := t.arena.NewObject()
+	// fastjson (v1.6.3) escapes strings and keys with strconv.AppendQuote, i.e. with Go escapes
+	// (\x01, \a, \v, \U000e0001) that are not JSON, so strings are escaped here and handed over raw.
+	t.buf = append(t.buf, '{')
 	for i := range t.fields {
-		obj.Set(t.fields[i].Name, ValueToJson(t.arena, t.fields[i].Type, values[i]))
+		if i > 0 {
+			t.buf = append(t.buf, ',')
+		}
+		t.buf = appendJSONString(t.buf, t.fields[i].Name)
+		t.buf = append(t.buf, ':')
+		t.buf = ValueToJson(t.arena, t.fields[i].Type, values[i]).MarshalTo(t.buf)
 	}
-
-	t.buf = obj.MarshalTo(t.buf)
-	t.buf = append(t.buf, '\n')
+	t.buf = append(t.buf, '}', '\n')
 	t.w.Write(t.buf)
 	t.buf = t.buf[:0]
 	t.arena.Reset()
@@ -70,7 +75,7 @@ func ValueToJson(arena *fastjson.Arena, t octosql.Type, value octosql.Value) *fa
 			return arena.NewFalse()
 		}
 	case octosql.TypeIDString:
-		return arena.NewString(value.Str)
+		return rawJSONString(arena, value.Str)
 	case octosql.TypeIDTime:
 		return arena.NewString(value.Time.Format(time.RFC3339))
 	case octosql.TypeIDDuration:
@@ -82,11 +87,18 @@ func ValueToJson(arena *fastjson.Arena, t octosql.Type, value octosql.Value) *fa
 		}
 		return arr
 	case octosql.TypeIDStruct:
-		arr := arena.NewObject()
+		// built by hand for the same reason as the row object: keys must be JSON-escaped
+		raw := []byte{'{'}
 		for i := range value.Struct {
-			arr.Set(t.Struct.Fields[i].Name, ValueToJson(arena, t.Struct.Fields[i].Type, value.Struct[i]))
+			if i > 0 {
+				raw = append(raw, ',')
+			}
+			raw = appendJSONString(raw, t.Struct.Fields[i].Name)
+			raw = append(raw, ':')
+			raw = ValueToJson(arena, t.Struct.Fields[i].Type, value.Struct[i]).MarshalTo(raw)
 		}
-		return arr
+		raw = append(raw, '}')
+		return arena.NewNumberString(string(raw))
 	case octosql.TypeIDTuple:
 		arr := arena.NewArray()
 		for i := range value.Tuple {
@@ -96,6 +108,38 @@ func ValueToJson(arena *fastjson.Arena, t octosql.Type, value octosql.Value) *fa
 	default:
 		panic(fmt.Sprintf("invalid octosql value type to print: %s", value.TypeID.String()))
 	}
+}
+
+// rawJSONString returns a value that marshals to the JSON string literal of s.
+// (NewNumberString is fastjson's only constructor that takes pre-rendered text.)
+func rawJSONString(arena *fastjson.Arena, s string) *fastjson.Value {
+	return arena.NewNumberString(string(appendJSONString(nil, s)))
+}
+
+const hexDigits = "0123456789abcdef"
+
+// appendJSONString appends s as a JSON string literal (RFC 8259 section 7).
+func appendJSONString(dst []byte, s string) []byte {
+	dst = append(dst, '"')
+	for i := 0; i < len(s); i++ {
+		switch c := s[i]; {
+		case c == '"':
+			dst = append(dst, '\\', '"')
+		case c == '\\':
+			dst = append(dst, '\\', '\\')
+		case c == '\n':
+			dst = append(dst, '\\', 'n')
+		case c == '\r':
+			dst = append(dst, '\\', 'r')
+		case c == '\t':
+			dst = append(dst, '\\', 't')
+		case c < 0x20:
+			dst = append(dst, '\\', 'u', '0', '0', hexDigits[c>>4], hexDigits[c&0xf])
+		default:
+			dst = append(dst, c)
+		}
+	}
+	return append(dst, '"')
 }
 
 func (t *JSONFormatter) Close() error {
